@@ -216,6 +216,9 @@ def g_handshake(mode):
                 ("connect-list-payload", lambda c: c.send_msg(P.MSG_CONNECT, marshal.dumps(["handshake", "object"]))),
                 ("connect-garbage-payload", lambda c: c.send_msg(P.MSG_CONNECT, b"\xff\xfe garbage")),
                 ("connect-unknown-serializer", lambda c: c.send_msg(P.MSG_CONNECT, marshal.dumps({"handshake": "hello", "object": "target"}), ser_id=99)),
+                # a failure reason the peer's serializer cannot encode (json + lone surrogate): the CONNECTFAIL must still arrive
+                ("connect-json-class-tag-with-surrogate", lambda c: c.send_msg(P.MSG_CONNECT, b'{"handshake": {"__class__": "\\udc80"}, "object": "target"}',
+                                                                               ser_id=serializers.serializers["json"].serializer_id)),
             ]
             for beh in ("accept", "ValueError", "SecurityError", "ConnectionClosedError", "weird"):
                 D.behaviour = beh
@@ -377,6 +380,12 @@ def g_cleanup(mode):
 
         def close(self):
             self.closed += 1
+            if self.name.endswith("-selfuntrack"):
+                # one close() shared between "the client freed it" and "the connection dropped": stop tracking once closed
+                try:
+                    current_context.untrack_resource(self)
+                except Exception:      # noqa  (no connection in this thread's context)
+                    pass
 
     allres = []
     CONNIDS = []
@@ -396,7 +405,7 @@ def g_cleanup(mode):
             CONNIDS.append(self.connid)
             out = []
             for i in range(n):
-                r = Res("m%d" % i)
+                r = Res("m%d" % i if n < 4 else "m%d-selfuntrack" % i)
                 allres.append(r)
                 current_context.track_resource(r)
                 out.append(r)
@@ -426,7 +435,7 @@ def g_cleanup(mode):
             n_by = len(allres)
             by_res = list(allres)
             for ending in endings:
-                for nres in (0, 2):
+                for nres in (0, 2) + ((4,) if ending == "release" else ()):      # 4: resources whose close() untracks themselves
                     RUNS[0] += 1
                     before = len(allres)
                     c = Raw(r.addr)
@@ -636,6 +645,14 @@ def g_replies(mode):
             e.custom = [v]
             raise e
 
+        def raise_surrogate(self):
+            raise ValueError("cannot process file: " + os.fsdecode(b"report-\xff.txt"))
+
+        def raise_with_pyromsg_attr(self):
+            e = ValueError("boom")
+            e.pyroMsg = "just some text the application put there"
+            raise e
+
         def items_then_fail(self):
             def g():
                 yield 1
@@ -727,6 +744,20 @@ def g_replies(mode):
                             elif type(x) is not want_t or tuple(x.args) != want_args:
                                 fail(group="C07", serializer=sername, position=pos,
                                      violated="caller got %s%r instead of %s%r" % (type(x).__name__, x.args, want_t.__name__, want_args))
+                    # content that is awkward for the error reply itself: text the serializer cannot encode (lone surrogate), an attribute named
+                    # like Pyro's own bookkeeping: the caller still gets the exception or a Pyro error describing it - never a dropped connection
+                    for meth in ("raise_surrogate", "raise_with_pyromsg_attr"):
+                        RUNS[0] += 1
+                        with client.Proxy(uri) as q:
+                            q._pyroSerializer = sername
+                            try:
+                                getattr(q, meth)()
+                                fail(group="C07", serializer=sername, scenario=meth, violated="no exception")
+                            except errors.CommunicationError as x:
+                                fail(group="C07", serializer=sername, scenario=meth, violated="caller got %s(%s) instead of the exception or a Pyro error describing it" % (type(x).__name__, x))
+                            except Exception as x:    # noqa
+                                if "ValueError" not in str(x) and not isinstance(x, ValueError):
+                                    fail(group="C07", serializer=sername, scenario=meth, violated="error does not describe the original: %r" % (x,))
                     RUNS[0] += 1
                     try:
                         p.raise_with_attr()
@@ -823,6 +854,42 @@ def g_batch(mode):
                         finally:
                             for o in objs:
                                 r.daemon.unregister(o)
+            # a batch proxy whose submit FAILED (private / unknown member: the whole request is refused after its prefix ran) must not repeat that
+            # prefix on its next submit
+            for badname in ("_priv", "nosuch"):
+                RUNS[0] += 1
+                objs = [Acc(), Acc()]
+                uris = [r.daemon.register(o) for o in objs]
+                try:
+                    with client.Proxy(uris[0]) as p:
+                        p.add(1)
+                        try:
+                            getattr(p, badname)()
+                        except Exception:      # noqa
+                            pass
+                        p.add(3)
+                        p.add(4)
+                    with client.Proxy(uris[1]) as p:
+                        b = client.BatchProxy(p)
+                        b.add(1)
+                        getattr(b, badname)()
+                        b.add(2)
+                        try:
+                            list(b())
+                        except Exception:      # noqa
+                            pass
+                        b.add(3)
+                        b.add(4)
+                        try:
+                            second = list(b())
+                        except Exception as x:      # noqa
+                            second = repr(x)
+                    if objs[1].state() != objs[0].state():
+                        fail(group="C11", history="batch [add(1), %s(), add(2)] fails at submit; same batch proxy then submits [add(3), add(4)]" % badname,
+                             violated="second submit gave %r and left state %r; one-by-one gives state %r" % (second, objs[1].state(), objs[0].state()))
+                finally:
+                    for o in objs:
+                        r.daemon.unregister(o)
             # the same batch proxy used for several submits (normal and oneway, in every order): each submit runs exactly the calls queued
             # since the previous one
             for first_oneway, second_oneway in ((False, False), (True, False), (False, True), (True, True)):
@@ -964,6 +1031,37 @@ def g_registry(mode):
                         pass
                     if how == "by-id-then-id-reused":
                         d.unregister(y)
+        # a stale or inherited id attribute must never act on what the id designates NOW (unregister / uriFor / proxyFor by object)
+        for how in ("id-taken-over-by-force", "unregistered-by-id-then-id-reused", "instance-of-registered-class"):
+            RUNS[0] += 1
+            a_, b_ = Box("A"), Box("B")
+            if how == "id-taken-over-by-force":
+                d.register(a_, "idz")
+                d.register(b_, "idz", force=True)
+            elif how == "unregistered-by-id-then-id-reused":
+                d.register(a_, "idz")
+                d.unregister("idz")
+                d.register(b_, "idz")
+            else:
+                d.register(Box, "idz")
+                a_ = Box("plain instance, never registered")
+                b_ = None
+            try:
+                d.unregister(a_)
+            except errors.DaemonError:
+                pass
+            except Exception as x:    # noqa
+                fail(group="C16", how=how, violated="unregister(object whose id attribute is stale / inherited) raised %r" % (x,))
+            if "idz" not in d.objectsById:
+                fail(group="C16", how=how, violated="unregister(obj) removed the registration of ANOTHER object (the one its stale / inherited id attribute names now)")
+            elif b_ is not None:
+                try:
+                    u = d.uriFor(a_)
+                    fail(group="C16", how=how, violated="uriFor(obj) handed out %s for an object that is not registered (the id designates another object)" % u)
+                except errors.DaemonError:
+                    pass
+            if "idz" in d.objectsById:
+                d.unregister("idz")
         # garbage collection of a weakly registered object: its id becomes unknown - but an object registered under that id LATER stays reachable
         import gc
         for how in ("collected-while-registered", "unregistered-by-object-then-id-reused", "unregistered-by-id-then-id-reused", "id-taken-over-by-force"):
